@@ -206,11 +206,13 @@ Section Theorems.
     - destruct Hinv as (Hu & _). rewrite (recv_unsynced s n Hu) in Hrs. discriminate.
   Qed.
 
-  (* a segment never changes a ring cell at or beyond the right edge advertised last *)
+  (* a segment never writes a storage cell of the ring at or beyond the right edge advertised
+     last (cells addressed through the read pointer before the segment; the only other thing a
+     segment can do to the ring is to clear it: RST in SYN-RECEIVED of a listener) *)
   Theorem rx_never_beyond_advertised s g cx ip r s' out tags :
     rx_reach s g -> ev_ok g s (EvSegment ip r) -> tcp_step cx s (EvSegment ip r) = Ok (s', out, tags) ->
     forall i, rb_len (s_rx_buffer s) + adv_width s <= i < rb_cap (s_rx_buffer s) ->
-              rb_cell (s_rx_buffer s') i = rb_cell (s_rx_buffer s) i.
+              znth (rb_store (s_rx_buffer s')) (rb_get_idx (s_rx_buffer s) i) = rb_cell (s_rx_buffer s) i.
   Proof.
     intros Hr Hev Hs. pose proof (rx_invariant_preserved _ _ Hr) as Hinv.
     destruct (step_inv cx g s _ s' out tags Hinv Hev Hs) as (_ & _ & _ & Hb).
